@@ -167,6 +167,9 @@ func crossMintP2PKMenu(w *wworld.World) []string {
 	return ops
 }
 
+// crossMintRotatedInit: mint b has rotated BEFORE wallet W1 learns of it; W3 still holds ecash of b's old keyset
+var crossMintRotatedInit = []string{"mint|2|16", "mint|0|8", "rotate|b|0", "addmint|0|b"}
+
 var crossMintCfg = wworld.Config{FeeA: 100, FeeB: 0, TwoMints: true, Wallets: []wworld.WalletCfg{{Default: "a"}, {Default: "a"}, {Default: "b"}}}
 
 // wUnionMenu: the union of all wallet-level menus (see unionMenu in seqcommon.go for the idea).
